@@ -140,7 +140,7 @@ def cases(tier):
           ("UCISD", 3, (1, 1), 1, {"moB_ident": 1}, 1, "u"), ("UCISD", 3, (2, 1), 1, {"moB_ident": 1}, 1, "u"),
           ("GCISD", 2, (1, 1), 1, {}, 1, "u")]
     T_ = [("CISD", 3, (1, 1), 2, {}, 0, "r"), ("CISD_THC", 4, (2, 2), 1, {"nthc": 2}, 0, "r"), ("UCISD", 3, (1, 1), 2, {"moB_orth": 1}, 1, "u"),
-          ("GCISD", 3, (2, 1), 1, {}, 1, "u"), ("UCISD", 4, (2, 2), 1, {"moB_ident": 1}, 1, "u")]
+          ("GCISD", 3, (2, 1), 1, {}, 1, "u"), ("UCISD", 4, (2, 1), 1, {"moB_ident": 1}, 0, "u")]
     for kind, norb, nelec, nchol, opt, sd, entry in Q_ + (T_ if tier == "thorough" else []):
         out.append({"type": "ad", "kind": kind, "norb": norb, "nelec": list(nelec), "nchol": nchol, "opt": opt, "spin_dep": sd, "entry": entry})
     # multi-Slater: a few enumerated lists (aufbau and non-aufbau reference), both entries
